@@ -661,6 +661,8 @@ class TypeshedFinder:
                     typeshed_client.ImportedName,
                     # typeshed pretends the class is a function
                     ast.FunctionDef,
+                    # special forms declared as "Annotated: _SpecialForm"
+                    ast.AnnAssign,
                 ),
             ):
                 return None
